@@ -54,6 +54,14 @@ fn replay<C: CellType>(req: &Value) {
         let op = call[0].as_str().unwrap_or("");
         let a1 = call[1].as_i64().unwrap_or(0);
         let a2 = call.get(2).and_then(|x| x.as_i64()).unwrap_or(0);
+        // far arguments: call[3], call[4] count units of 2^62 cells added to a1, a2
+        let q1 = call.get(3).and_then(|x| x.as_i64()).unwrap_or(0);
+        let q2 = call.get(4).and_then(|x| x.as_i64()).unwrap_or(0);
+        let far = |a: i64, q: i64| -> Option<isize> { isize::try_from(a as i128 + ((q as i128) << 62)).ok() };
+        let (Some(x1), Some(x2)) = (far(a1, q1), far(a2, q2)) else {
+            println!("{}", json!({"id": id, "error": "argument does not fit isize"}));
+            return;
+        };
         if stream {
             println!("{}", json!({"id": id, "pending": call}));
             let _ = out.lock().flush();
@@ -61,19 +69,19 @@ fn replay<C: CellType>(req: &Value) {
         galloc::arm(mode, fail_k.wrapping_sub(refused_total_allocs()), 0);
         let ret: i64 = match op {
             "mov" => {
-                mem.mov(a1 as isize);
+                mem.mov(x1);
                 0
             }
-            "read" => value_token(mem.read(a1 as isize)),
+            "read" => value_token(mem.read(x1)),
             "write" => {
-                mem.write(a1 as isize, token_value::<C>(a2));
+                mem.write(x1, token_value::<C>(a2));
                 0
             }
             "acc" => {
-                mem.make_accessible(a1 as isize, a2 as isize);
+                mem.make_accessible(x1, x2);
                 0
             }
-            "check" => mem.check(a1 as isize) as i64,
+            "check" => mem.check(x1) as i64,
             _ => -99,
         };
         let allocs = galloc::armed_count();
@@ -81,7 +89,7 @@ fn replay<C: CellType>(req: &Value) {
         galloc::disarm();
         add_allocs(allocs);
         refused_total += failed;
-        let ev = json!([op, a1, a2, ret, allocs, failed]);
+        let ev = json!([op, a1, a2, ret, allocs, failed, q1, q2]);
         if stream {
             println!("{}", json!({"id": id, "event": ev}));
             let _ = out.lock().flush();
